@@ -69,6 +69,41 @@ fn main() {
           let _ = tokio::time::timeout(Duration::from_secs(10), ctx.term()).await;
           bad == 0
         }
+        "R" => {
+          // does an outbound ipc connection come back after the listener dropped it / was replaced?
+          let path = format!("{}/probe-r-{}", util::ipc_dir(), it);
+          let (lst, ep) = vh::rawpeer::RawListener::bind_unix(&path).await.unwrap();
+          let s = ctx.socket(SocketType::Push).unwrap();
+          util::set_i32(&s, opt::RECONNECT_IVL, 100).await;
+          let mon = s.monitor(256).await.unwrap();
+          tokio::spawn(async move {
+            let t = Instant::now();
+            while let Ok(ev) = mon.recv().await {
+              println!("  [monitor +{:?}] {:?}", t.elapsed(), ev);
+            }
+          });
+          let _ = s.connect(&ep).await;
+          let t0 = Instant::now();
+          let mut accepts = vec![];
+          while t0.elapsed() < Duration::from_secs(3) {
+            match tokio::time::timeout(Duration::from_millis(3000).saturating_sub(t0.elapsed()), lst.accept()).await {
+              Ok(Ok(c)) => {
+                accepts.push(t0.elapsed().as_millis());
+                drop(c);
+              }
+              _ => break,
+            }
+          }
+          println!("ipc accept-and-drop: accepts at {:?} ms", accepts);
+          // now the listener goes away and a new one takes the path
+          drop(lst);
+          tokio::time::sleep(Duration::from_millis(300)).await;
+          let (lst2, _) = vh::rawpeer::RawListener::bind_unix(&path).await.unwrap();
+          let r = tokio::time::timeout(Duration::from_secs(4), lst2.accept()).await;
+          println!("after the path was re-bound: connection within 4 s: {}", matches!(r, Ok(Ok(_))));
+          let _ = tokio::time::timeout(Duration::from_secs(5), ctx.term()).await;
+          accepts.len() >= 2 && matches!(r, Ok(Ok(_)))
+        }
         "Q" => {
           // does ReadyPipeQueue::close() release a blocked pop() while a sender clone is still alive?
           let q = std::sync::Arc::new(rzmq::verif::Rpq::<u32>::new(4));
